@@ -657,6 +657,16 @@ func judgeUnit(im *Impl, n *Node, ur *unitRun, lines []logLine) {
 			}
 		}
 	}
+	// O4b: whatever the moment of the cancel/release (also before the runner's pid was recorded, or
+	// before the runner was launched): afterwards no runner of this unit is alive
+	if everCancelled || !releasedAt.IsZero() {
+		if ps := procsWithMarker("unitdir=" + n.UnitDir(ur.Unit)); len(ps) > 0 {
+			time.Sleep(400 * time.Millisecond)
+			if ps = procsWithMarker("unitdir=" + n.UnitDir(ur.Unit)); len(ps) > 0 {
+				im.Violate(fmt.Sprintf("unit %s: its runner process %v is alive after the unit was cancelled/released", ur.Unit, ps), "c13-process-survives-cancel", ctx)
+			}
+		}
+	}
 	// O8: undisturbed units end as their script ends, with the whole output recorded
 	disturbed := everCancelled || !releasedAt.IsZero()
 	if !disturbed && ur.SubErr == nil && len(lines) > 0 {
@@ -1504,6 +1514,67 @@ func releaseUnderLookups(c *Ctx, im *Impl, n *Node, round int) {
 
 var rng4 *Rng // part 4 runs next to the other parts: its own stream, derived from the seed
 
+// releaseDuringLaunch: the unit is force-released (or released) at the moment its runner is being
+// launched (the submitter holds stdin open; the release is fired a few milliseconds after the end
+// of input, swept over the launch window; many files make RemoveAll slow enough to overlap the
+// runner's first status write).  Before /repo a6deca5 Cancel could not see a runner whose pid was
+// not recorded yet: the runner wrote a fresh status file into the directory being removed and the
+// released unit was registered again by the next request for it.
+func releaseDuringLaunch(c *Ctx, im *Impl, n *Node, k int) {
+	unknown := func(s string) bool { return strings.Contains(s, "unknown work unit") }
+	conn, err := DialCtl(n.Sock, tmo)
+	if err != nil {
+		return
+	}
+	defer conn.Close()
+	b, _ := json.Marshal(map[string]interface{}{"command": "work", "subcommand": "submit", "node": "localhost", "worktype": "sh", "params": shQuote("echo hi; sleep 0.2")})
+	l, err := conn.Cmd(string(b), tmo)
+	i := strings.Index(l, "with ID ")
+	if err != nil || i < 0 {
+		im.Violate(fmt.Sprintf("submit failed: %v %s", err, l), "c13-submit-failed", nil)
+		return
+	}
+	unit := strings.TrimSuffix(strings.Fields(l[i+8:])[0], ".")
+	bulk := filepath.Join(n.UnitDir(unit), "bulk")
+	Must(os.MkdirAll(bulk, 0o700))
+	for j := 0; j < 3000; j++ {
+		_ = os.WriteFile(filepath.Join(bulk, fmt.Sprintf("f%04d", j)), nil, 0o600)
+	}
+	sub := []string{"force-release", "release"}[k%2]
+	delay := time.Duration(2000+(k%16)*500) * time.Microsecond
+	ctx := map[string]interface{}{"scenario": "work " + sub + " fired while the unit's runner is being launched", "unit": unit, "delay_us": delay.Microseconds()}
+	done := make(chan string, 1)
+	go func() {
+		time.Sleep(delay)
+		r, _ := OneShot(n.Sock, map[string]interface{}{"command": "work", "subcommand": sub, "unitid": unit}, 40*time.Second)
+		done <- r
+	}()
+	_ = conn.Send([]byte("x"))
+	_ = conn.CloseWrite()
+	_, _ = conn.ReadLine(tmo)
+	reply := <-done
+	ctx["reply"] = reply
+	time.Sleep(600 * time.Millisecond) // a surviving runner would have written by now
+	if strings.Contains(reply, "released") {
+		_, serr := os.Stat(n.UnitDir(unit))
+		st, _ := OneShot(n.Sock, map[string]interface{}{"command": "work", "subcommand": "status", "unitid": unit}, tmo)
+		if serr == nil {
+			im.Violate(fmt.Sprintf("unit %s: its directory exists 600 ms after %s answered %q", unit, sub, reply), "c13-release-leaves-directory", ctx)
+		}
+		if !unknown(st) {
+			im.Violate(fmt.Sprintf("unit %s is known again after %s answered %q: work status says %q", unit, sub, reply, st), "c13-known-after-release", ctx)
+		}
+		if ps := procsWithMarker("unitdir=" + n.UnitDir(unit)); len(ps) > 0 {
+			im.Violate(fmt.Sprintf("unit %s: runner %v alive after %s", unit, ps, sub), "c13-process-survives-cancel", ctx)
+		}
+	} else {
+		_, _ = OneShot(n.Sock, map[string]interface{}{"command": "work", "subcommand": "force-release", "unitid": unit}, 40*time.Second)
+	}
+	_ = os.RemoveAll(n.UnitDir(unit))
+	im.Count(fmt.Sprintf("release-during-launch %s %d", sub, k), strings.Contains(reply, "released"))
+	im.Hist("release-during-launch:" + sub)
+}
+
 // releaseThatFails: a file that cannot be removed (immutable attribute) makes RemoveAll fail: the
 // release retries and then answers with an error; the unit must not be reported released, must stay
 // known, and a release after the obstacle is gone must remove it completely.
@@ -1558,6 +1629,13 @@ func part4(c *Ctx, im *Impl, tmp string) {
 		releaseUnderLookups(c, im, n, i)
 	}
 	releaseThatFails(c, im, n)
+	nLaunch := 6
+	if c.Thorough() {
+		nLaunch = 150
+	}
+	for i := 0; i < nLaunch; i++ {
+		releaseDuringLaunch(c, im, n, i)
+	}
 	if !n.Alive() {
 		im.Violate("the daemon died during releases: "+n.ExitState(), "c13-daemon-died", nil)
 	}
